@@ -286,8 +286,11 @@ def run_sentinels(rec):
                     b0 = v[1]
                     third = v[2]
                     ok = b0[0][1] is a0
+                    # the list-valued rule A itself: the lookahead and the reference inside B receive the
+                    # very same list object (not an equal copy)
+                    ok = ok and (v[0] is b0[0])
                     if isinstance(third, list) and len(third) == 2 and isinstance(third[1], b.g.Sent):
-                        ok = ok and third[0][1] is a0 and third[1] is b0[1]
+                        ok = ok and third[0][1] is a0 and third[1] is b0[1] and third[0] is v[0] and third is b0
                     rec.count('identity_checks')
                     if not ok:
                         rec.violation('memo-identity', 'sentinel identity',
